@@ -1699,6 +1699,22 @@ fn cover_proj(profile: &str, p: &Pools, rng: &mut Rng, out: &mut Vec<String>, pi
             } } } }
         }
         "C18" => {
+            // the three relations with the compound types' own default tolerances: every kind, equal and unequal pairs
+            for kind in ["Vector1", "Vector2", "Vector3", "Vector4", "Point1", "Point2", "Point3", "Matrix2", "Matrix3", "Matrix4", "Quaternion", "Basis2", "Basis3", "DecQ", "Dec3", "Dec2"] {
+                let n = ncomp2(kind);
+                for d in [q(0, 1), q(1, 16)] {
+                    let c: Vec<Q> = (0..n).map(|_| q(rng.range(-8, 8) as i128, *rng.pick(&[1, 2, 4]))).collect();
+                    let i = rng.below(n);
+                    let mut pb = PB::new();
+                    let (x, y) = (pb.load(compound_from(p, rng, kind, &c)), pb.load(compound_from(p, rng, kind, &perturb(&c, i, d))));
+                    let (e, r, u) = (pb.load(vs(q(1, 8))), pb.load(vs(q(1, 8))), pb.load(Val::I(4)));
+                    pb.call("abs_diff_eq", "default", &[x, y, e]);
+                    pb.call("relative_eq", "default", &[x, y, e, r]);
+                    pb.call("ulps_eq", "default", &[x, y, e, u]);
+                    *pid += 1;
+                    if let Some(s) = pb.finish(*pid, &["Q", "f64", "f32"]) { out.push(s); }
+                }
+            }
             for pred in ["is_symmetric", "is_diagonal"] { for n in [2usize, 3, 4] { for code in 0..5 { for e in [0i64, 12, -12] {
                 // an exactly symmetric (or diagonal) matrix with distinct entries; one off-diagonal element is then moved
                 let sym = |c: usize, r: usize| -> Q { if pred == "is_diagonal" { if c == r { q((c + 2) as i128, 1) } else { q(0, 1) } } else { q(((c.min(r) * 4 + c.max(r)) + 1) as i128, 3) } };
